@@ -809,6 +809,44 @@ where
     }
 }
 
+#[cfg(feature = "rubato_verif")]
+impl<T> FastFixedIn<T> {
+    /// Verification hook: private control state, read-only.
+    pub fn verif_state(&self) -> crate::VerifState {
+        crate::VerifState {
+            last_index: self.last_index,
+            resample_ratio: self.resample_ratio,
+            target_ratio: self.target_ratio,
+            chunk_size: self.chunk_size,
+            needed_input_size: self.chunk_size,
+            current_buffer_fill: self.chunk_size,
+            saved_frames: 0,
+            frames_needed: 0,
+            buffer_len: self.buffer.first().map(|b| b.len()).unwrap_or(0),
+            mask: self.channel_mask.clone(),
+        }
+    }
+}
+
+#[cfg(feature = "rubato_verif")]
+impl<T> FastFixedOut<T> {
+    /// Verification hook: private control state, read-only.
+    pub fn verif_state(&self) -> crate::VerifState {
+        crate::VerifState {
+            last_index: self.last_index,
+            resample_ratio: self.resample_ratio,
+            target_ratio: self.target_ratio,
+            chunk_size: self.chunk_size,
+            needed_input_size: self.needed_input_size,
+            current_buffer_fill: self.current_buffer_fill,
+            saved_frames: 0,
+            frames_needed: 0,
+            buffer_len: self.buffer.first().map(|b| b.len()).unwrap_or(0),
+            mask: self.channel_mask.clone(),
+        }
+    }
+}
+
 #[cfg(test)]
 mod tests {
     use crate::PolynomialDegree;
